@@ -305,7 +305,7 @@ func hexs(b []byte) string {
 // ---- groups -----------------------------------------------------------------------------------------
 
 func extraGroups() []string {
-	g := []string{"nesting-limit", "null-members", "unknown-members", "mismatch", "spelling", "prefix/packed", "after-failure"}
+	g := []string{"nesting-limit", "null-members", "unknown-members", "mismatch", "spelling", "prefix/packed", "after-failure", "quoted-numbers"}
 	for d := 1; d <= 3; d++ {
 		for _, b := range []string{"128", "16384"} {
 			g = append(g, fmt.Sprintf("prefix/depth%d/%s", d, b))
@@ -357,6 +357,8 @@ func enumerate(tier, g string, yield func(*jcase) bool) {
 		afterFailureCases(yield)
 	case g == "mismatch":
 		mismatchCases(yield)
+	case g == "quoted-numbers":
+		quotedCases(yield)
 	case g == "spelling":
 		spellingCases(yield)
 	case strings.HasPrefix(g, "prefix/"):
